@@ -399,7 +399,11 @@ func (core *JApiCore) addRequest(d *directive.Directive) *jerr.JApiError {
 
 	case sn == notation.SchemaNotationRegex && typ == "" && d.BodyCoords.IsSet():
 		if s, err = catalog.NewExchangeRegexSchema(d.BodyCoords.Read()); err == nil {
-			err = core.catalog.AddRequestBody(s, bodyFormat, *d)
+			// an invalid regular expression has to be reported here, not when the
+			// catalog is serialised
+			if err = s.Check(); err == nil {
+				err = core.catalog.AddRequestBody(s, bodyFormat, *d)
+			}
 		}
 		var e kit.Error
 		if errors.As(err, &e) {
